@@ -4,7 +4,7 @@
 (* {"e":"Eval","mode":..,"pre":[[word..]..],"argv":[word..],"out":"ok"|"err",..,"dest":[..],"tag":{..}} *)
 (* Eval is accepted iff the logged outcome class and (on success) every destination value *)
 (* equal what the specification computes for the same configuration and words.            *)
-EXTENDS ArgKey, ArgSplit, Json, IOUtils
+EXTENDS ArgKey, ArgSplit, ArgUsage, Json, IOUtils
 VARIABLES l, cfg
 Log == ndJsonDeserialize(IOEnv.TRACE)
 Ev == Log[l]
@@ -39,6 +39,11 @@ TNext == /\ l <= Len(Log) /\ l' = l + 1
                /\ Ev.out = "ok" /\ Ev.words = SplitStr(Ev.cmd)
                /\ Ev.argc = Len(Ev.words) + 1 /\ Ev.nullterm
                /\ Ev.prog0 = (IF Ev.withprog THEN Ev.prog ELSE <<112, 114, 111, 103, 114, 97, 109, 110, 97, 109, 101>>)
+            \/ Ev.e = "Usage" /\ UNCHANGED cfg /\ Ev.out = "ok" /\ Ev.stray = 0
+               /\ Ev.entries = Listing(cfg, ContOf(Ev.via, Ev.argv))
+            \/ Ev.e = "HelpArg" /\ UNCHANGED cfg /\ Ev.out = "ok"
+               /\ LET a == HelpArgOf(cfg, Ev.key) IN
+                  IF a > 0 THEN Ev.toks = <<a>> /\ ~Ev.unknown ELSE Ev.toks = <<>> /\ Ev.unknown
             \/ Ev.e = "Define" /\ UNCHANGED cfg
                /\ LET d == DefineRes(cfg)
                       firstRef == IF \E k \in 1..Len(d) : d[k] = "refused" THEN CHOOSE k \in 1..Len(d) : d[k] = "refused" /\ \A j \in 1..(k-1) : d[j] = "ok" ELSE Len(d) + 1
